@@ -1,0 +1,130 @@
+//go:build verif
+
+// This file carries the machine-checked contracts for package dig. It is
+// comments only: with the build tag off the compiler never sees it, with the
+// tag on it contributes no code. The contracts are read by /verif/digvc,
+// which generates verification conditions from the SSA form of the real
+// functions named here and discharges them with SMT solvers.
+
+package dig
+
+// ---------------------------------------------------------------------------
+// scope tree walks (C08)
+
+//@ func (s *Scope) rootScope() (r)
+//@   requires s != nil
+//@   ensures[C08:root-has-no-parent] r != nil && r.parentScope == nil
+//@   ensures[C08:root-of-root] s.parentScope == nil ==> r == s
+//@   loop for curr.parentScope != nil #1: invariant[C08:root-walk] curr != nil && (s.parentScope == nil ==> curr == s)
+
+//@ func (s0 *Scope) ancestors() (r)
+//@   ensures[C08:walk-starts-here] s0 != nil ==> len(r) >= 1 && r[0] == s0
+//@   ensures[C08:walk-nil] s0 == nil ==> len(r) == 0
+//@   ensures[C08:walk-follows-parent] forall i int :: 0 <= i && i+1 < len(r) ==> r[i+1] == r[i].parentScope
+//@   ensures[C08:walk-ends-at-root] len(r) >= 1 ==> r[len(r)-1].parentScope == nil
+//@   ensures[C08:walk-non-nil] forall i int :: 0 <= i && i < len(r) ==> r[i] != nil
+//@   ensures[C08:walk-fresh] cap(r) == 0 || fresh(r)
+//@   loop for s != nil #1: invariant[C08:walk-inv-head] len(scopes) == 0 ==> s == s0
+//@   loop for s != nil #1: invariant[C08:walk-inv-first] len(scopes) >= 1 ==> scopes[0] == s0 && s0 != nil
+//@   loop for s != nil #1: invariant[C08:walk-inv-next] len(scopes) >= 1 ==> s == scopes[len(scopes)-1].parentScope
+//@   loop for s != nil #1: invariant[C08:walk-inv-chain] forall i int :: 0 <= i && i+1 < len(scopes) ==> scopes[i+1] == scopes[i].parentScope
+//@   loop for s != nil #1: invariant[C08:walk-inv-non-nil] forall i int :: 0 <= i && i < len(scopes) ==> scopes[i] != nil
+//@   loop for s != nil #1: invariant[C08:walk-inv-fresh] cap(scopes) == 0 || fresh(scopes)
+
+// ---------------------------------------------------------------------------
+// user code: the only doors (C03, C17, C20)
+
+//@ pure func isInvoker(f Ref) Bool = f == defaultInvoker || f == dryInvoker
+
+// Contract of every value of type invokerFn (closed set by T4: isInvoker).
+//@ func type:dig.invokerFn(f, fn, args) (results)
+//@   trusted
+//@   requires[C17:invoker-known] isInvoker(f)
+//@   modifies $nrun, $runFn, $runArgs, $ev, $evKind
+//@   allocates
+//@   maypanic
+//@   ensures f == defaultInvoker ==> $nrun == old($nrun) + 1 && $runFn[old($nrun)] == fn && $runArgs[old($nrun)] == args
+//@   ensures f == defaultInvoker ==> $ev == old($ev) + 1 && $evKind[old($ev)] == evRun()
+//@   ensures f == defaultInvoker ==> (forall i int :: 0 <= i && i < old($nrun) ==> $runFn[i] == old($runFn)[i] && $runArgs[i] == old($runArgs)[i])
+//@   ensures f == defaultInvoker ==> (forall i int :: 0 <= i && i < old($ev) ==> $evKind[i] == old($evKind)[i])
+//@   ensures f == dryInvoker ==> $nrun == old($nrun) && $ev == old($ev) && $runFn == old($runFn) && $runArgs == old($runArgs) && $evKind == old($evKind)
+//@   ensures fresh(results) || len(results) == 0
+//@   onpanic f == defaultInvoker && $nrun == old($nrun) + 1 && $runFn[old($nrun)] == fn && $runArgs[old($nrun)] == args
+//@   onpanic $ev == old($ev) + 1 && $evKind[old($ev)] == evRun()
+//@   onpanic forall i int :: 0 <= i && i < old($ev) ==> $evKind[i] == old($evKind)[i]
+
+// Contract of every user callback.
+//@ func type:dig.Callback(f, info) ()
+//@   trusted
+//@   modifies $ncb, $cbFn, $cbInfo, $ev, $evKind
+//@   ensures $ncb == old($ncb) + 1 && $cbFn[old($ncb)] == f && $cbInfo[old($ncb)] == info
+//@   ensures $ev == old($ev) + 1 && $evKind[old($ev)] == evCallback()
+//@   ensures forall i int :: 0 <= i && i < old($ev) ==> $evKind[i] == old($evKind)[i]
+//@   ensures forall i int :: 0 <= i && i < old($ncb) ==> $cbFn[i] == old($cbFn)[i] && $cbInfo[i] == old($cbInfo)[i]
+
+// Clock reads are events too (C20: what Runtime measures).
+//@ func (c digclock.Clock) Now() (t)
+//@   trusted
+//@   modifies $ev, $evKind, $evTime
+//@   ensures $ev == old($ev) + 1 && $evKind[old($ev)] == evNow() && $evTime[old($ev)] == t
+//@   ensures forall i int :: 0 <= i && i < old($ev) ==> $evKind[i] == old($evKind)[i] && $evTime[i] == old($evTime)[i]
+
+//@ func (c digclock.Clock) Since(t0) (d)
+//@   trusted
+//@   modifies $ev, $evKind, $evTime, $evDur
+//@   ensures $ev == old($ev) + 1 && $evKind[old($ev)] == evSince() && $evTime[old($ev)] == t0 && $evDur[old($ev)] == d
+//@   ensures forall i int :: 0 <= i && i < old($ev) ==> $evKind[i] == old($evKind)[i] && $evTime[i] == old($evTime)[i] && $evDur[i] == old($evDur)[i]
+
+// ---------------------------------------------------------------------------
+// the resolution knot: frame shared by BuildList / Build / Call
+
+//@ locset knot = constructorNode.called, decoratorNode.state, map(Scope.values), map(Scope.groups), map(Scope.decoratedGroups), elems(reflect.Value), @events
+
+//@ func (pl paramList) BuildList(c) (args, err)
+//@   trusted
+//@   requires c != nil
+//@   modifies @knot
+//@   allocates
+//@   maypanic
+//@   ensures[C01:args-len] err == nil ==> len(args) == len(pl.Params)
+//@   ensures err == nil ==> fresh(args) || len(args) == 0
+//@   ensures $nrun >= old($nrun) && $ev >= old($ev) && $ncb >= old($ncb)
+//@   ensures forall m *constructorNode :: old(m.called) ==> m.called
+//@   onpanic $nrun >= old($nrun) && $ev >= old($ev) && $ncb >= old($ncb)
+//@   onpanic forall m *constructorNode :: old(m.called) ==> m.called
+
+//@ func shallowCheckDependencies(c, pl) (err)
+//@   trusted
+//@   requires c != nil
+//@   allocates
+//@   ensures err == nil || is(err, errMissingTypes)
+
+//@ func (rl resultList) ExtractList(cw, decorated, values) (err)
+//@   trusted
+//@   requires cw != nil
+//@   modifies map(Scope.values), map(Scope.groups), map(Scope.decoratedGroups), elems(reflect.Value)
+//@   allocates
+//@   ensures is(cw, ptr(stagingContainerWriter)) ==> (forall m map[key]reflect.Value :: m != as(cw, ptr(stagingContainerWriter)).values && allocated(m) ==> mapeq(m))
+//@   ensures is(cw, ptr(stagingContainerWriter)) ==> (forall m map[key][]reflect.Value :: m != as(cw, ptr(stagingContainerWriter)).groups && allocated(m) ==> mapeq(m))
+
+//@ func (sr *stagingContainerWriter) Commit(cw) ()
+//@   trusted
+//@   requires sr != nil && cw != nil
+//@   modifies map(Scope.values), map(Scope.groups), elems(reflect.Value)
+//@   allocates
+
+//@ func (n *constructorNode) Call(c) (err)
+//@   requires n != nil && c != nil && is(c, ptr(Scope)) && as(c, ptr(Scope)) != nil
+//@   requires n.s != nil && isInvoker(as(c, ptr(Scope)).invokerFn)
+//@   requires n.callback != nil ==> n.location != nil
+//@   requires as(c, ptr(Scope)).clockSrc != nil
+//@   modifies @knot
+//@   allocates
+//@   maypanic
+//@   ensures[C02:noop-when-called] old(n.called) ==> err == nil && unchangedAll() && $nrun == old($nrun) && $ncb == old($ncb) && $ev == old($ev)
+//@   ensures[C02:success-means-called] err == nil ==> n.called
+//@   ensures[C07:called-only-on-success] reached(BuildList_1) && err != nil ==> n.called == at(BuildList_1, n.called)
+//@   ensures[C07:fail-commits-nothing] reached(BuildList_1) && err != nil ==> sameSince(BuildList_1, map(Scope.values), map(Scope.groups), map(Scope.decoratedGroups))
+//@   ensures[C03:at-most-one-run] reached(BuildList_1) ==> $nrun <= at(BuildList_1, $nrun) + 1
+//@   ensures[C03:no-run-without-args] !reached(BuildList_1) ==> $nrun == old($nrun) && $ncb == old($ncb)
+//@   ensures[C04:missing-deps-no-run] !old(n.called) && err != nil && is(err, errMissingDependencies) ==> $nrun == old($nrun) && $ncb == old($ncb) && unchangedAll()
